@@ -120,6 +120,8 @@ structure St where
   upgraded : Bool := false
   /-- the connection was closed on the client's side (`conn.Close()`): writes fail from now on -/
   closedLocal : Bool := false
+  /-- `closeWithError` has run -/
+  failed : Bool := false
   pos : Pos := .ready
   prog : List Phase
   out : List Cls := []
@@ -144,9 +146,13 @@ def completeOne (x : Cmd) (ok : Bool) : Cmd :=
 
 def pendingCmd (x : Cmd) : Bool := x.issued && x.result.isNone
 
-/-- `closeWithError`: every pending command completes with the error -/
+/-- a continuation request still queued is cancelled -/
+def cancelCont (x : Cmd) : Cmd := { x with cont := if x.cont = .waiting then .cancelled else x.cont }
+
+/-- `closeWithError`: every pending command completes with the error, and every continuation
+    request still queued is cancelled (also one registered after its command was completed) -/
 def failAll (l : List Cmd) : List Cmd :=
-  l.map fun x => if pendingCmd x then completeOne x false else x
+  l.map fun x => cancelCont (if pendingCmd x then completeOne x false else x)
 
 /-- the connection is closed locally: nothing more can be read, reads fail -/
 def closeConn (s : St) : St := { s with inbox := [], tail := .err, closedLocal := true }
@@ -191,7 +197,7 @@ def rFail (s : St) : Option St :=
   if s.reader = .reading && (rTok s).isNone &&
      (s.tail ≠ .stall || !(s.inbox = [] || s.inbox.head? = some .cutoff)) then
     -- unwinding through handleFetch closes the in-flight message's items channel
-    some { closeConn s with reader := .exited, cmds := failAll s.cmds, flight := none }
+    some { closeConn s with reader := .exited, cmds := failAll s.cmds, flight := none, failed := true }
   else none
 
 /-- the consumer finished with the literal: `<-done` returns in handleFetch -/
@@ -208,7 +214,7 @@ def record (s : St) (c : Cls) : St :=
 def issueCmd (s : St) (c : Nat) (x : Cmd) (withCont : Bool) : St :=
   let x1 : Cmd := { x with issued := true, cont := if withCont then .waiting else x.cont }
   let s1 := setCmd s c x1
-  if s.closedLocal then { s1 with cmds := failAll s1.cmds } else s1
+  if s.closedLocal then { s1 with cmds := failAll s1.cmds, failed := true } else s1
 
 def clsOf (ok : Bool) : Cls := if ok then .ok else .err
 
@@ -221,16 +227,17 @@ def consume (s : St) (c : Nat) (w : Bool) : St :=
 /-- a command method that blocks on a continuation request while holding the encoder mutex -/
 def issueBlocking (s : St) (c : Nat) (kindOk : Kind → Bool) : St :=
   match cmdAt? s c with
-  | some x => if kindOk x.kind then { issueCmd s c x true with mutex := true, pos := .cont c } else record s .skipped
+  | some x => if kindOk x.kind && !x.issued then { issueCmd s c x true with mutex := true, pos := .cont c } else record s .skipped
   | none => record s .skipped
 
 /-- the caller starts a phase. A call for which there is no command handle (unknown or not yet
-    issued command, wrong kind) cannot be made: it is recorded as skipped. -/
+    issued command, wrong kind) cannot be made: it is recorded as skipped; so is issuing a command
+    number a second time (every command method creates a fresh command). -/
 def startPhase (s : St) : Phase → St
   | .greetWait => { s with pos := .greet }
   | .issue c =>
     match cmdAt? s c with
-    | some x => record (issueCmd s c x false) .ret
+    | some x => if x.issued then record s .skipped else record (issueCmd s c x false) .ret
     | none => record s .skipped
   | .wait c =>
     match cmdAt? s c with
@@ -249,7 +256,7 @@ def startPhase (s : St) : Phase → St
   | .idleDone _ => record { s with mutex := false } (if s.idleFailed then .skipped else .ret)
   | .starttls c =>
     match cmdAt? s c with
-    | some x => if x.kind = .starttls then { issueCmd s c x false with mutex := true, pos := .res c } else record s .skipped
+    | some x => if x.kind = .starttls && !x.issued then { issueCmd s c x false with mutex := true, pos := .res c } else record s .skipped
     | none => record s .skipped
 
 def cStart (s : St) : Option St :=
@@ -329,7 +336,11 @@ def cCont (s : St) : Option St :=
       | .append, .cancelled => some (record s .ret)
       | .idle, .granted => some (record s .ok)
       | .idle, .cancelled => some (record { s with mutex := false, idleFailed := true } .err)
-      | .auth, .granted => some (setCmd s c { x with cont := if x.result.isNone then .waiting else .cancelled })
+      | .auth, .granted =>
+        -- Authenticate registers the next continuation request and writes its SASL response;
+        -- on a closed connection the write fails and Authenticate returns that error
+        if s.closedLocal then some (record { s with mutex := false } .err)
+        else some (setCmd s c { x with cont := .waiting })
       | .auth, .cancelled => some { s with pos := .res c }
       | _, _ => none
     | none => none
@@ -350,7 +361,7 @@ def kFinal (s : St) : Option St :=
 /-- the probing command's write fails: `closeWithError` from the writer's side -/
 def pFire (s : St) : Option St :=
   if s.prober = .wanting && !s.mutex then
-    some { closeConn s with prober := .done, cmds := failAll s.cmds }
+    some { closeConn s with prober := .done, cmds := failAll s.cmds, failed := true }
   else none
 
 def rules : List (St → Option St) :=
